@@ -15,6 +15,7 @@
 //verif:include cose_sign_env.go
 //verif:harness H_C16_cose_sign_attrs
 //verif:harness H_C16_cose_sign_signer
+//verif:harness H_C16_cose_sign_nilcert
 // (H_C16_cose_sign_full - arbitrary signer x two attributes of all key types - is NOT registered: ~7*10^5 paths per
 // 6 minutes with no end in sight; the thorough tier is the attribute harness with all key types for both attributes
 // plus the signer harness with all key types for its one attribute)
@@ -184,6 +185,24 @@ func invalidAttrs() bool {
 
 func H_C16_cose_sign_attrs()  { focus = 1; signCOSE() }
 func H_C16_cose_sign_signer() { focus = 2; signCOSE() }
+
+// an external signer whose chain has a missing (nil) element: an error and no bytes, never a panic
+func H_C16_cose_sign_nilcert() {
+	focus, nilCert = 2, true
+	req := buildRequest()
+	e := NewEnvelope().(*base.Envelope)
+	var out []byte
+	var err error
+	_, panicked := rt.Panics(func() { out, err = e.Sign(req) })
+	rt.Assert(!panicked, "C16.cose.nilcert.nopanic")
+	if panicked {
+		return
+	}
+	rt.Assert((out == nil) != (err == nil), "C16.cose.nilcert.bytes.xor.error")
+	if nilCertReturned {
+		rt.Assert(err != nil, "C16.cose.nilcert.rejected")
+	}
+}
 func H_C16_cose_sign_full()   { focus = 0; signCOSE() }
 
 func signCOSE() {
